@@ -291,7 +291,7 @@ Ltac c1 := match goal with |- cons 1 (bind _ _) => idtac end; apply (cons_bind 1
 Lemma nopanic_lcp_hash a : nopanic (lcp_hash a). Proof. unfold lcp_hash. np. Qed.
 Lemma nofuel_lcp_hash a : nofuel (lcp_hash a). Proof. unfold lcp_hash. nf. Qed.
 Lemma cons1_lcp_hash a : cons 1 (lcp_hash a).
-Proof. unfold lcp_hash. destruct (a =? 0); [apply cons_read_n1; lia | apply cons_fail]. Qed.
+Proof. unfold lcp_hash. destruct (a =? _); [apply cons_read_n1; lia | apply cons_fail]. Qed.
 Lemma cons0_lcp_hash a : cons 0 (lcp_hash a).
 Proof. eapply cons_weaken; [apply cons1_lcp_hash | lia]. Qed.
 
@@ -547,9 +547,9 @@ Qed.
 
 (** * ValueFromBytes *)
 Theorem value_from_bytes_nopanic id b : nopanic (value_from_bytes id b).
-Proof. unfold value_from_bytes. np. Qed.
+Proof. unfold value_from_bytes, value_from_bytes_g. np. Qed.
 Theorem value_from_bytes_nofuel id b : nofuel (value_from_bytes id b).
-Proof. unfold value_from_bytes. nf. Qed.
+Proof. unfold value_from_bytes, value_from_bytes_g. nf. Qed.
 
 (** * sysfs PCR dump *)
 
@@ -714,7 +714,7 @@ Proof. unfold parse_bios_data. cst. Qed.
 Theorem read_acm_status_cost fx d : cost 1 (read_acm_status fx d). Proof. unfold read_acm_status. cst. Qed.
 Theorem read_raw64_at_cost d o : cost 1 (read_raw64_at d o). Proof. unfold read_raw64_at. cst. Qed.
 Theorem lookup_acm_size_cost fx h : cost 1 (lookup_acm_size fx h). Proof. unfold lookup_acm_size. cst. Qed.
-Theorem value_from_bytes_cost id b : cost 1 (value_from_bytes id b). Proof. unfold value_from_bytes. cst. Qed.
+Theorem value_from_bytes_cost id b : cost 1 (value_from_bytes id b). Proof. unfold value_from_bytes, value_from_bytes_g. cst. Qed.
 Lemma read_reg_cost fx d e : cost 1 (read_reg fx d e).
 Proof. destruct e as [[off w] sl]. unfold read_reg. destruct sl; cst. Qed.
 Theorem read_reg_k_cost fx d k : cost 1 (read_reg_k fx d k).
@@ -1352,7 +1352,7 @@ Qed.
 Lemma J_elt_sbios : J 3 M0 elt_sbios.
 Proof.
   unfold elt_sbios, lcp_hash. apply J_bind; [apply J_read_le; lia | intros ha].
-  destruct (ha =? 0).
+  destruct (ha =? _).
   - do 3 j1. apply J_bind_le; [lia|]. intros n Hn. rewrite pow256_2 in Hn.
     apply (J_alloc_repeat 3 M0 n 40 20); [lia | apply rdonly_read_n; lia | lia | unfold M0; lia | intros; apply J_ret].
   - j1. apply J_bind_fail.
